@@ -30,6 +30,8 @@ def _leaf(fn):
 
 
 def run(ctx, obs):
+    from ..rules import sweeps
+    sweeps.run(ctx, obs, 'C16')
     tables(ctx, obs)
     class_dispatch(ctx, obs)
     value_dispatch(ctx, obs)
